@@ -435,6 +435,9 @@ fn emit_nodes_with_continuation(
                     } else {
                         out.push(json!({"x()": name}));
                     }
+                } else if context.global_variables.contains(name) {
+                    // a variable holding a divert target: called through the variable, as in expressions
+                    out.push(json!({"f()": name, "var": true}));
                 } else {
                     out.push(json!({"f()": name}));
                 }
